@@ -56,7 +56,10 @@ type groupT struct {
 }
 
 type scenario struct {
-	ID      int                 `json:"id"`
+	ID int `json:"id"`
+	// Bundle > 0: the file imports the static rule bundle example.com/c20bundle; Groups[:Bundle] are the bundle's groups
+	// (loaded first, on the same import table), the rest are the file's own groups
+	Bundle  int                 `json:"bundle"`
 	Groups  []groupT            `json:"groups"`
 	Rules   string              `json:"rules"`
 	LoadErr string              `json:"load_err"`
@@ -248,8 +251,56 @@ func (q reqT) where() string {
 	}
 }
 
+func groupName(sc *scenario, si, gi int) string {
+	name := fmt.Sprintf("s%d_g%d", si, gi)
+	if gi < sc.Bundle {
+		name = fmt.Sprintf("bnd_g%d", gi)
+	}
+	if sc.Groups[gi].Skip {
+		name = "skip_" + name
+	}
+	return name
+}
+
+const bundlePath = "example.com/c20bundle"
+
+// renderGroups: the group functions (shared by rules files and the bundle)
+func renderGroups(b *strings.Builder, groups []groupT) {
+	for _, g := range groups {
+		fmt.Fprintf(b, "func %s(m dsl.Matcher) {\n", g.Name)
+		for _, imp := range g.Imports {
+			fmt.Fprintf(b, "\tm.Import(`%s`)\n", imp)
+		}
+		for j, q := range g.Reqs {
+			fmt.Fprintf(b, "\tm.Match(`probe_%s_r%d($x)`).Where(%s).Report(`%s_r%d $x`)\n", g.Name, j, q.where(), g.Name, j)
+		}
+		for j := range g.Custom {
+			fmt.Fprintf(b, "\tm.Match(`probe_%s_c%d($x)`).Where(m[\"x\"].Filter(f_%s_c%d)).Report(`%s_c%d $x`)\n", g.Name, j, g.Name, j, g.Name, j)
+		}
+		b.WriteString("}\n\n")
+	}
+}
+
+// renderBundle: the source of harness/fake/c20bundle/rules.go (the file on disk must equal it)
+func renderBundle(groups []groupT) string {
+	var b strings.Builder
+	b.WriteString("// Package c20bundle: a rule bundle whose groups have Import() sets of their own (C20). GENERATED by harness/cmd/c20 -writebundle.\n")
+	b.WriteString("package c20bundle\n\nimport \"github.com/quasilyte/go-ruleguard/dsl\"\n\nvar Bundle = dsl.Bundle{}\n\n")
+	renderGroups(&b, groups)
+	return b.String()
+}
+
 func renderRules(sc *scenario) string {
 	var b strings.Builder
+	if sc.Bundle > 0 {
+		b.WriteString("package gorules\n\nimport (\n\t\"github.com/quasilyte/go-ruleguard/dsl\"\n\tc20bundle \"" + bundlePath + "\"\n)\n\n")
+		b.WriteString("func init() {\n\tdsl.ImportRules(\"bp\", c20bundle.Bundle)\n}\n\n")
+		renderGroups(&b, sc.Groups[sc.Bundle:])
+		b.WriteString("/* the imported bundle " + bundlePath + " (its groups are loaded first, on the same import table):\n\n")
+		b.WriteString(strings.ReplaceAll(renderBundle(sc.Groups[:sc.Bundle]), "*/", "* /"))
+		b.WriteString("*/\n")
+		return b.String()
+	}
 	hasCustom := false
 	for _, g := range sc.Groups {
 		hasCustom = hasCustom || len(g.Custom) > 0
@@ -448,6 +499,7 @@ func (o *oracle) satisfied(op, wrap, target string) []string {
 func main() {
 	seed := flag.Int64("seed", 1, "PRNG seed")
 	nscen := flag.Int("n", 60, "number of random scenarios")
+	writeBundle := flag.Bool("writebundle", false, "write harness/fake/c20bundle/rules.go (cwd = harness/) and exit")
 	flag.Parse()
 	o := out{Seed: *seed, Table: map[string][]string{}, Std: map[string]string{}}
 	enc := json.NewEncoder(os.Stdout)
@@ -516,6 +568,41 @@ func main() {
 			g(false, nil, tp("", "scanner", "Scanner"), sk("*", "scanner", "Scanner"), sk("*", "rand", "Rand"), ut("*", "pprof", "Profile"))),
 		mk(g(false, []string{"math/rand"}, tp("", "rand", "Rand"), iq("rand", "Source")), g(false, nil, tp("", "rand", "Rand"), iq("rand", "Source"))),
 	)
+	// ---- the static rule bundle example.com/c20bundle (harness/fake/c20bundle/rules.go) and files importing it: the bundle's
+	// groups are loaded first, on the importing file's import table
+	bundleGroups := []groupT{
+		g(false, []string{fio, ht, afoo}, tp("", "io", "Reader"), iq("io", "Reader"), fr("io", "Reader", "ReadFake"), tp("*", "template", "Template"), sk("", "foo", "T")),
+		g(false, nil, tp("", "io", "Reader"), iq("io", "Reader"), fr("io", "Reader", "Read"), tp("*", "template", "Template"), sk("*", "rand", "Rand")),
+		g(true, []string{bfoo, "text/scanner"}, tp("", "foo", "T")),
+		g(false, []string{bfoo}, tp("", "foo", "T"), iq("foo", "Iface"), tp("", "scanner", "Scanner")),
+		g(false, nil, sk("", "io", "Writer"), ut("[]", "template", "Template"), tp("", "scanner", "Scanner")),
+	}
+	for gi := range bundleGroups {
+		bsc := scenario{Bundle: len(bundleGroups), Groups: bundleGroups}
+		bundleGroups[gi].Name = groupName(&bsc, 0, gi)
+	}
+	if *writeBundle {
+		if err := os.WriteFile("fake/c20bundle/rules.go", []byte(renderBundle(bundleGroups)), 0o644); err != nil {
+			fail(err)
+		}
+		return
+	}
+	if disk, err := os.ReadFile("fake/c20bundle/rules.go"); err != nil || string(disk) != renderBundle(bundleGroups) {
+		fail(fmt.Errorf("harness/fake/c20bundle/rules.go is not the rendering of bundleGroups (run the harness with -writebundle inside harness/): %v", err))
+	}
+	withBundle := func(own ...groupT) scenario {
+		gs := append([]groupT{}, bundleGroups...)
+		return scenario{Bundle: len(bundleGroups), Groups: append(gs, own...)}
+	}
+	scs = append(scs,
+		withBundle(g(false, nil, tp("", "io", "Reader"), iq("io", "Reader"), tp("*", "template", "Template"), tp("", "scanner", "Scanner")),
+			g(false, []string{afoo}, tp("", "foo", "T"), sk("", "foo", "T"))),
+		withBundle(g(false, []string{"example.com/b/foo", "text/scanner"}, tp("", "foo", "T"), tp("", "scanner", "Scanner"), iq("io", "Reader")),
+			g(false, []string{fio, ht}, tp("", "io", "Reader"), iq("io", "Reader"), fr("io", "Reader", "ReadFake"), tp("*", "template", "Template")),
+			g(false, nil, tp("", "io", "Reader"), iq("io", "Reader"), fr("io", "Reader", "Read"), tp("*", "template", "Template"))),
+		// the bundle's groups bind foo; a group of the importing file that does not is a load error
+		withBundle(g(false, nil, tp("", "foo", "T"))),
+	)
 	cg := func(imports []string, cs ...customT) groupT { return groupT{Imports: imports, Custom: cs} }
 	scs = append(scs,
 		// a fully-qualified name means that package whatever the group imports ("io" is the path of the stdlib package)
@@ -558,11 +645,17 @@ func main() {
 	// One ruleguard run reports a node for the first matching rule only, so every rule gets its own probe function.
 	var tb strings.Builder
 	tb.WriteString(targetSrc)
+	bundleProbesDone := false
 	for si := range scs {
 		for gi, gr := range scs[si].Groups {
-			name := fmt.Sprintf("s%d_g%d", si, gi)
-			if gr.Skip {
-				name = "skip_" + name
+			name := groupName(&scs[si], si, gi)
+			if gi < scs[si].Bundle {
+				if bundleProbesDone {
+					continue // the bundle's probe functions are shared by all files importing it (each runs in its own engine)
+				}
+				if gi == scs[si].Bundle-1 {
+					bundleProbesDone = true
+				}
 			}
 			for j, q := range gr.Reqs {
 				if q.Op == "sink" {
@@ -618,8 +711,9 @@ func main() {
 	// ---- load everything into one engine
 	fset := token.NewFileSet()
 	eng := ruleguard.NewEngine()
-	lctx := &ruleguard.LoadContext{Fset: fset, GroupFilter: func(gr *ruleguard.GoRuleGroup) bool { return !strings.HasPrefix(gr.Name, "skip_") }}
+	lctx := &ruleguard.LoadContext{Fset: fset, GroupFilter: func(gr *ruleguard.GoRuleGroup) bool { return !strings.Contains(gr.Name, "skip_") }}
 	engIR := ruleguard.NewEngine()
+	bundleEngines := map[int]*ruleguard.Engine{}
 	usedStd := map[string]bool{}
 	for si := range scs {
 		sc := &scs[si]
@@ -628,22 +722,25 @@ func main() {
 		sc.OTarget = map[string]string{}
 		for gi := range sc.Groups {
 			gr := &sc.Groups[gi]
-			gr.Name = fmt.Sprintf("s%d_g%d", si, gi)
-			if gr.Skip {
-				gr.Name = "skip_" + gr.Name
-			}
+			gr.Name = groupName(sc, si, gi)
 			for _, q := range gr.Reqs {
 				usedStd[q.Pkg] = true
 			}
 		}
 		sc.Rules = renderRules(sc)
+		loadInto := eng
+		if sc.Bundle > 0 {
+			// a file that imports the bundle gets an engine of its own (the bundle's rules would otherwise be loaded twice)
+			loadInto = ruleguard.NewEngine()
+			bundleEngines[si] = loadInto
+		}
 		func() {
 			defer func() {
 				if p := recover(); p != nil {
 					sc.LoadErr = fmt.Sprintf("PANIC: %v", p)
 				}
 			}()
-			if err := eng.Load(lctx, fmt.Sprintf("s%d.go", si), strings.NewReader(sc.Rules)); err != nil {
+			if err := loadInto.Load(lctx, fmt.Sprintf("s%d.go", si), strings.NewReader(sc.Rules)); err != nil {
 				sc.LoadErr = err.Error()
 			}
 		}()
@@ -657,8 +754,8 @@ func main() {
 			for _, gr := range sc.Groups {
 				hasCustom = hasCustom || len(gr.Custom) > 0
 			}
-			if hasCustom {
-				sc.LoadErrIR = "n/a" // custom filter functions are compiled by Load only
+			if hasCustom || sc.Bundle > 0 {
+				sc.LoadErrIR = "n/a" // custom filter functions are compiled by Load only; bundle files run in engines of their own
 				return
 			}
 			irf, err := ruleguard.VerifConvertAST(engIR, lctx, fmt.Sprintf("s%d.go", si), []byte(sc.Rules))
@@ -732,7 +829,7 @@ func main() {
 	// ---- one run over the target
 	tfile := u.Files["example.com/c20/target"]
 	target := &hutil.Target{Fset: u.Fset, File: tfile, Info: u.Infos["example.com/c20/target"], Pkg: tpkg, Src: []byte(fullTarget), Path: "example.com/c20/target/src.go"}
-	collect := func(e *ruleguard.Engine, dst func(sc *scenario) map[string][]string) string {
+	collect := func(e *ruleguard.Engine, dst func(sc *scenario) map[string][]string, only int) string {
 		reports, pmsg := hutil.Run(e, target, 0, "", nil)
 		byRule := map[string][]string{}
 		for _, rep := range reports {
@@ -743,6 +840,9 @@ func main() {
 		}
 		for si := range scs {
 			sc := &scs[si]
+			if (only >= 0 && si != only) || (only < 0 && sc.Bundle > 0) {
+				continue
+			}
 			for _, gr := range sc.Groups {
 				ids := []string{}
 				for j := range gr.Reqs {
@@ -761,11 +861,24 @@ func main() {
 		}
 		return pmsg
 	}
-	o.RunPanic = collect(eng, func(sc *scenario) map[string][]string { return sc.Obs })
+	o.RunPanic = collect(eng, func(sc *scenario) map[string][]string { return sc.Obs }, -1)
+	var bsis []int
+	for si := range bundleEngines {
+		bsis = append(bsis, si)
+	}
+	sort.Ints(bsis)
+	for _, si := range bsis {
+		if scs[si].LoadErr != "" {
+			continue
+		}
+		if p := collect(bundleEngines[si], func(sc *scenario) map[string][]string { return sc.Obs }, si); p != "" {
+			o.RunPanic += fmt.Sprintf(" | bundle engine of s%d.go: %s", si, p)
+		}
+	}
 	for si := range scs {
 		scs[si].ObsIR = map[string][]string{}
 	}
-	if p := collect(engIR, func(sc *scenario) map[string][]string { return sc.ObsIR }); p != "" {
+	if p := collect(engIR, func(sc *scenario) map[string][]string { return sc.ObsIR }, -1); p != "" {
 		o.RunPanic += " | IR engine: " + p
 	}
 	o.Scenarios = scs
